@@ -8,6 +8,6 @@ CONSTANTS
   NOffer = 2
   NTake = 1
   WithClose = TRUE
-  GuardedClose = TRUE
+  GuardedClose = FALSE
 INVARIANTS Inv_NoPanic
 CHECK_DEADLOCK FALSE
